@@ -8,6 +8,8 @@ package evalfilter
 // every input that takes the same route through the script.
 
 import (
+	"strings"
+
 	"github.com/skx/evalfilter/v2/object"
 	"github.com/skx/evalfilter/v2/zzsv"
 )
@@ -21,6 +23,7 @@ func init() {
 	zzsv.Register("ZZ_C02_SwitchSubjects", ZZ_C02_SwitchSubjects)
 	zzsv.Register("ZZ_C02_TailConditionals", ZZ_C02_TailConditionals)
 	zzsv.Register("ZZ_C02_GuardedReturns", ZZ_C02_GuardedReturns)
+	zzsv.Register("ZZ_C02_SwitchLookalikes", ZZ_C02_SwitchLookalikes)
 }
 
 // zzGen generates control-flow programs.
@@ -630,4 +633,63 @@ func ZZ_C02_GuardedReturns(sv *zzsv.T) {
 		return
 	}
 	zzCompareRun(sv, "C02.guarded", e, out, rerr, trace, ref, want, []string{"x", "r"})
+}
+
+// ZZ_C02_SwitchLookalikes: a switch whose subject variable, string arm and
+// regexp arm are all spelled the same (`ab`, "ab", /ab/) - and a second
+// regexp spelled like a function name: each arm keeps its own way of
+// matching (equality for the string, a search for the regexp) whatever else
+// in the script is written with the same letters, in either order of arms.
+func ZZ_C02_SwitchLookalikes(sv *zzsv.T) {
+	subj := zzOver(sv, "ab", sv.Choice("len", 4), "abx")
+	other := zzOver(sv, "other", sv.Choice("olen", 3), "abx")
+	var src string
+	order := sv.Choice("order", 3)
+	switch order {
+	case 0:
+		src = "switch (ab) { case \"ab\" { t(1); } case /ab/ { t(2); } case other { t(3); } case /len/ { t(5); } default { t(4); } } return len(ab);"
+	case 1:
+		src = "switch (ab) { case /ab/ { t(2); } case \"ab\" { t(1); } case other { t(3); } default { t(4); } } return len(ab);"
+	default:
+		src = "x = \"ab\"; r = /x/; switch (ab) { case \"x\" { t(1); } case /x/ { t(2); } case other { t(3); } default { t(4); } } return len(ab);"
+	}
+	sv.Note("script", src)
+	var trace []object.Object
+	e, err := zzPrepare(sv, src, map[string]zv{"ab": zStr(subj), "other": zStr(other)}, []string{"ab", "other"}, sv.Choice("noopt", 2) == 1, &trace)
+	sv.Assume(err == nil)
+	out, rerr := e.Execute(nil)
+	zzDescribe(sv, "result", out, rerr)
+	sv.Assert("C02.lookalikes.noerror", rerr == nil && zzSame(sv, out, zInt(int64(len(subj)))))
+	want := int64(4)
+	switch order {
+	case 0:
+		switch {
+		case subj == "ab":
+			want = 1
+		case strings.Contains(subj, "ab"):
+			want = 2
+		case subj == other:
+			want = 3
+		}
+	case 1:
+		switch {
+		case strings.Contains(subj, "ab"):
+			want = 2
+		case subj == other:
+			want = 3
+		}
+	default:
+		switch {
+		case subj == "x":
+			want = 1
+		case strings.Contains(subj, "x"):
+			want = 2
+		case subj == other:
+			want = 3
+		}
+	}
+	sv.Assert("C02.lookalikes.one", len(trace) == 1)
+	if len(trace) == 1 {
+		sv.Assert("C02.lookalikes.arm", zzSame(sv, trace[0], zInt(want)))
+	}
 }
